@@ -91,7 +91,7 @@ def run(ctx: Context):
 
     # -- (b) downloaded data placement --------------------------------------
     with ctx.rule("C39.2", "R1", "write(): downloaded bytes go to offset self.downloaded, after consulting the overwrite "
-                  "heap; prefix/suffix slicing is paired with the downloaded counter", expected=4) as r:
+                  "heap; prefix/suffix slicing is paired with the downloaded counter; chunks are dropped/clipped only as the size allows", expected=6) as r:
         fw = [n for n in cfg.stmt_nodes() if any(call_name(c) == "self.f.write" for c in node_calls(n))]
         if len(fw) < 2:
             raise AnchorVanished("write(): expected the prefix write and the final write to self.f")
@@ -181,6 +181,46 @@ def run(ctx: Context):
                 if cfg.nodes[nid] in fw:
                     r.violation(W, W.loc(n.ast), "downloaded data is written after an overwrite region covering the rest of "
                                 "the chunk was found", witness(cfg, parent, (nid, s)))
+        # the re-queue path advances the downloaded counter to next_downloaded before returning
+        for n in pushes:
+            for (st, w) in find_path_from_to_avoiding(cfg, lambda x, _n=n: x is _n, lambda x: any(
+                    call_tail(c) == "_update_downloaded" and len(c.args) == 1 and fnorm.norm(x, c.args[0]) in
+                    ("next_downloaded", norm_src("self.downloaded + len(data)")) for c in node_calls(x))):
+                r.violation(W, W.loc(n.ast), "after re-queueing the rest of an overwrite region the downloaded counter is not "
+                            "advanced to next_downloaded: the same chunk position is processed again on the next call", w)
+        # downloaded data is dropped only when the consumer is closed or the (possibly truncated) download size is
+        # reached; every other early return loses original file content
+        early = [n for n in cfg.find(is_return) if not any(p_.kind == "stmt" and calls_at(p_, "_update_downloaded")
+                                                          for (p_, _l) in cfg.predecessors(n))]
+        for n in early:
+            r.site(W, n.ast, "early return")
+
+            def excused(t, lab):
+                f = fnorm.edge_fact(t, lab)
+                if not f:
+                    return False
+                return (f[0] == "truth" and f[1] == "self.is_closed") or \
+                       (f[0] == "<=" and f[1] == "self.download_size" and f[2] == "self.downloaded")
+            for (t, w) in find_path_avoiding(cfg, lambda x, _n=n: x is _n, gate_edge=excused):
+                r.violation(W, W.loc(n.ast), "write() drops a downloaded chunk although the consumer is open and the download "
+                            "size has not been reached (path: %s)" % w.brief(), w)
+        # a chunk reaching past download_size (file truncated meanwhile) is clipped before anything is written
+        clip = [n for n in cfg.stmt_nodes() if isinstance(n.ast, ast.Assign) and attr_path(n.ast.targets[0]) == "data"
+                and isinstance(n.ast.value, ast.Subscript) and isinstance(n.ast.value.slice, ast.Slice)
+                and n.ast.value.slice.lower is None and n.ast.value.slice.upper is not None]
+        okc = [n for n in clip if norm_plain(n.ast.value.slice.upper) == norm_src("self.download_size - self.downloaded")]
+        r.require(bool(okc), W, W.loc(), "a chunk that reaches past download_size is no longer clipped to download_size - downloaded: "
+                  "downloaded bytes would be written beyond a truncation")
+        for cn in okc:
+            r.site(W, cn.ast, "clip")
+
+            def fits(t, lab):
+                f = fnorm.edge_fact(t, lab)
+                return bool(f) and f[0] == "<=" and f[2] == "self.download_size" and (
+                    "next_downloaded" in f[1] or f[1] == norm_src("self.downloaded + len(data)"))
+            for wn in fw:
+                for (t, w) in find_path_avoiding(cfg, lambda x, _n=wn: x is _n, gate_node=lambda x, _c=cn: x is _c, gate_edge=fits):
+                    r.violation(W, W.loc(wn.ast), "downloaded data can be written without clipping the chunk to download_size", w)
         # the heap entry is popped before the merge loop (no region is consulted twice)
         pops = [n for n in cfg.stmt_nodes() if calls_at(n, "heappop")]
         r.require(len(pops) >= 2, W, W.loc(), "heap entries are no longer popped when consumed")
